@@ -255,7 +255,18 @@ class Run:
         elif k == 'mirror':
             H.append(e.communications.plum_to_kiwi_future(H[int(p[1])]))
         elif k == 'task':
-            H.append(e.futures.create_task(self.coro_fn(p[1]), e.loop))
+            # every other task is scheduled while ANOTHER loop is the thread's current one (as a communicator thread does):
+            # the task and its outcome future belong to the loop that was passed, not to the current one
+            foreign = len(H) % 2 == 1
+            if foreign:
+                if getattr(e, 'decoy', None) is None:
+                    e.decoy = asyncio.new_event_loop()
+                asyncio.set_event_loop(e.decoy)
+            try:
+                H.append(e.futures.create_task(self.coro_fn(p[1]), e.loop))
+            finally:
+                if foreign:
+                    asyncio.set_event_loop(e.loop)
         elif k == 'rpc':
             H.append(e.proc._schedule_rpc(self.call_fn(p[1])))
         elif k == 'comm':
